@@ -118,6 +118,13 @@ def impl(case):
                 m = metrics.RPE(rel, **kw)
                 m.process_data((tr, te))
                 out["error"], out["ids"] = [hexf(x) for x in m.error], [int(i) for i in m.delta_ids]
+                if case.get("laws"):   # the same metric object applied to a second, then again to the first pair
+                    try:
+                        m.process_data((tr, tr))
+                    except (metrics.MetricsException, filters.FilterException):
+                        pass   # (no pair on the other data: nothing was processed in between)
+                    m.process_data((tr, te))
+                    out["again"] = [[hexf(x) for x in m.error], [int(i) for i in m.delta_ids]]
             except metrics.MetricsException as e:
                 out["refused"] = "MetricsException"
             except filters.FilterException as e:
@@ -205,6 +212,9 @@ def judge(case, val, out):
         d = compare(rel, impl_err, ids, val, scale, dists)
         if d is not None:
             return _mv(d, "Metrics.rpe")
+        if "again" in out and out["again"] != [out["error"], ids]:
+            return _sv("a metric object that had processed other data before returns different values / end indices "
+                       "(%d values, %d ids instead of %d)" % (len(out["again"][0]), len(out["again"][1]), len(ids)))
         if case.get("laws"):
             ang = rel.startswith("rotation_angle")
             ratio = rel == "point_distance_error_ratio"
